@@ -164,3 +164,124 @@ theorem at?_plain (sd : Bool) (base : Nat) (s : St) (i : Nat) (items : List Item
       · simp at h
 
 end Martian.Proxy
+
+namespace Martian.Proxy
+
+/-! ### Which TLS session a request is attributed to -/
+
+/-- The TLS session in force when the request with index `k` is read, for a script whose first item
+has index `i` and is read on session `t`: every MITM CONNECT whose tunnel starts with a handshake
+opens a session of its own (`j + 2` for the CONNECT with index `j`), nested in the previous one. -/
+def tidAt (i t : Nat) : List Item → Nat → Nat
+  | [], _ => t
+  | it :: rest, k => if k ≤ i then t else tidAt (i + 1) (if isTlsMitm it then i + 2 else t) rest k
+
+/-- One step of the loop: the connection `handle` is given next, and its TLS session. -/
+theorem again_tls (sd : Bool) (s s' : St) (i c : Nat) (it : Item)
+    (h : (handleItem sd s i c it).2 = .again s') :
+    s'.connTls = (s.connTls || isTlsMitm it) ∧ s'.tlsId = (if isTlsMitm it then i + 2 else s.tlsId) := by
+  revert h
+  item_cases it then
+    (first
+      | (intro h; subst h; simp [isTlsMitm])
+      | (intro h; split at h <;> first | contradiction | (injection h with h; subst h; simp [isTlsMitm]))
+      | skip)
+
+theorem at?_tls (sd : Bool) (base : Nat) (s : St) (i : Nat) (items : List Item) (k : Nat) (s' : St) (it : Item)
+    (h : at? sd base s i items k = some (s', it)) :
+    s'.tlsId = tidAt i s.tlsId items k ∧ (s.connTls = true → s'.connTls = true) := by
+  induction items generalizing s i with
+  | nil => simp [at?] at h
+  | cons x rest ih =>
+    simp only [at?] at h
+    by_cases hk : k = i
+    · simp only [hk, if_true, Option.some.injEq, Prod.mk.injEq] at h
+      obtain ⟨rfl, _⟩ := h
+      simp [tidAt, hk]
+    · simp only [hk, if_false] at h
+      split at h
+      · rename_i s2 heq
+        have hik : i < k := by
+          rcases Nat.lt_or_ge i k with hc | hc
+          · exact hc
+          · rw [at?_lt sd base s2 (i + 1) rest k (by omega)] at h; simp at h
+        obtain ⟨h1, h2⟩ := again_tls sd s s2 i _ x heq
+        obtain ⟨ih1, ih2⟩ := ih s2 (i + 1) h
+        refine ⟨?_, ?_⟩
+        · have : ¬ k ≤ i := by omega
+          simp only [tidAt, this, if_false]
+          rw [ih1, h2]
+        · intro hc; apply ih2; rw [h1, hc]; rfl
+      · simp at h
+
+/-- After the TLS MITM CONNECT with index `j`, and as long as no further one follows, requests are
+read on session `j + 2`. -/
+theorem tidAt_after (i t : Nat) (items : List Item) (j k : Nat) (hij : i ≤ j) (hjk : j < k)
+    (hj : ∃ x, items[j - i]? = some x ∧ isTlsMitm x = true)
+    (hno : ∀ m, j < m → m < k → ∀ x, items[m - i]? = some x → isTlsMitm x = false) :
+    tidAt i t items k = j + 2 := by
+  induction items generalizing i t with
+  | nil => obtain ⟨x, hx, _⟩ := hj; simp at hx
+  | cons y rest ih =>
+    have hki : ¬ k ≤ i := by omega
+    simp only [tidAt, hki, if_false]
+    by_cases hji : j = i
+    · subst hji
+      obtain ⟨x, hx, hm⟩ := hj
+      simp at hx; subst hx
+      simp only [hm, if_true]
+      -- no further TLS CONNECT before k: the session stays
+      clear ih
+      suffices hs : ∀ (l : List Item) (i' : Nat), j < i' →
+          (∀ m, i' ≤ m → m < k → ∀ x, l[m - i']? = some x → isTlsMitm x = false) →
+          tidAt i' (j + 2) l k = j + 2 by
+        refine hs rest (j + 1) (by omega) ?_
+        intro m hm1 hm2 x hx
+        refine hno m (by omega) hm2 x ?_
+        have : m - j = (m - (j + 1)) + 1 := by omega
+        rw [this]; simpa using hx
+      intro l
+      induction l with
+      | nil => intros; rfl
+      | cons z r ihl =>
+        intro i' hi' hno'
+        simp only [tidAt]
+        split
+        · rfl
+        · rename_i hk'
+          have hz : isTlsMitm z = false := hno' i' (by omega) (by omega) z (by simp)
+          simp only [hz]
+          refine ihl (i' + 1) (by omega) ?_
+          intro m hm1 hm2 x hx
+          refine hno' m (by omega) hm2 x ?_
+          have : m - i' = (m - (i' + 1)) + 1 := by omega
+          rw [this]; simpa using hx
+    · refine ih (i + 1) _ (by omega) ?_ ?_
+      · obtain ⟨x, hx, hm⟩ := hj
+        refine ⟨x, ?_, hm⟩
+        have : j - i = (j - (i + 1)) + 1 := by omega
+        rw [this] at hx; simpa using hx
+      · intro m hm1 hm2 x hx
+        refine hno m hm1 hm2 x ?_
+        have : m - i = (m - (i + 1)) + 1 := by omega
+        rw [this]; simpa using hx
+
+/-- Without any TLS MITM CONNECT before it, a request is read on the session the connection started on. -/
+theorem tidAt_none (i t : Nat) (items : List Item) (k : Nat)
+    (hno : ∀ m, i ≤ m → m < k → ∀ x, items[m - i]? = some x → isTlsMitm x = false) :
+    tidAt i t items k = t := by
+  induction items generalizing i with
+  | nil => rfl
+  | cons z r ih =>
+    simp only [tidAt]
+    split
+    · rfl
+    · have hz : isTlsMitm z = false := hno i (by omega) (by omega) z (by simp)
+      simp only [hz]
+      refine ih (i + 1) ?_
+      intro m hm1 hm2 x hx
+      refine hno m (by omega) hm2 x ?_
+      have : m - i = (m - (i + 1)) + 1 := by omega
+      rw [this]; simpa using hx
+
+end Martian.Proxy
